@@ -70,6 +70,16 @@ type Destination struct {
 
 // New creates a destination object. Note that it still needs to be told to run via Run().
 func New(routeName string, matcher matcher.Matcher, addr, spoolDir string, spool, pickle bool, periodFlush, periodReConn time.Duration, connBufSize, ioBufSize, spoolBufSize int, spoolMaxBytesPerFile, spoolSyncEvery int64, spoolSyncPeriod, spoolSleep, unspoolSleep time.Duration) (*Destination, error) {
+	// these end up as ticker periods and buffer sizes in background goroutines, where a bad value panics
+	if periodFlush <= 0 || periodReConn <= 0 {
+		return nil, fmt.Errorf("destination %q: flush and reconn periods must be > 0", addr)
+	}
+	if ioBufSize <= 0 || connBufSize < 0 {
+		return nil, fmt.Errorf("destination %q: iobuf must be > 0 and connbuf >= 0", addr)
+	}
+	if spool && (spoolSyncPeriod <= 0 || spoolBufSize < 0) {
+		return nil, fmt.Errorf("destination %q: spoolsyncperiod must be > 0 and spoolbuf >= 0", addr)
+	}
 	key := util.Key(routeName, addr)
 	addr, instance := addrInstanceSplit(addr)
 	dest := &Destination{
